@@ -65,8 +65,35 @@ class TU:
         self.records = {}      # name -> list of (field, qualType)
         self.typedefs = {}
         self.funcs = {}
+        self.enums = {}        # enumerator name -> value (explicit integer literals and implicit increments only)
         for n in ast.get("inner", []):
             k = n.get("kind")
+            if k == "EnumDecl":
+                nxt = 0
+                for c in n.get("inner", []):
+                    if c.get("kind") != "EnumConstantDecl":
+                        continue
+                    val = None
+                    exprs = [x for x in c.get("inner", []) if not x.get("kind", "").endswith("Comment")]
+                    e = exprs[0] if exprs else None
+                    while isinstance(e, dict) and e.get("kind") in ("ConstantExpr", "ImplicitCastExpr", "ParenExpr"):
+                        if "value" in e:
+                            try:
+                                val = int(e["value"])
+                            except ValueError:
+                                pass
+                            break
+                        e = e["inner"][0]
+                    if val is None and isinstance(e, dict) and e.get("kind") == "IntegerLiteral":
+                        val = int(e["value"])
+                    if val is None and exprs:
+                        nxt = None          # an initialiser this reader does not evaluate: later values unknown
+                        continue
+                    if val is None:
+                        val = nxt
+                    if val is not None:
+                        self.enums[c["name"]] = val
+                        nxt = val + 1
             if k == "RecordDecl" and n.get("completeDefinition") and n.get("name"):
                 self.records[n["name"]] = [(f["name"], f["type"]["qualType"]) for f in n.get("inner", []) if f.get("kind") == "FieldDecl"]
             elif k == "TypedefDecl":
@@ -138,6 +165,7 @@ class Fn:
         self.externs = []           # names of allow-listed external scalar functions used (binders x_<name>)
         self.extern_ok = {}         # allow-list: name -> arity
         self.param_kinds = []       # per C parameter: ("ptr"|"val", name, [real paths]) | ("real", name)
+        self.spec = {}              # integer parameters fixed to a constant for this translation (name -> value)
 
     def use_extern(self, name):
         if name not in self.externs:
@@ -305,6 +333,11 @@ class Fn:
 
     def expr(self, n, env):
         k = n["kind"]
+        if k == "ConstantExpr" and "value" in n and not is_real_type(n.get("type", {}).get("qualType", "")):
+            try:
+                return IntConst(int(n["value"]))
+            except ValueError:
+                pass
         if k in ("ParenExpr", "ConstantExpr"):
             return self.expr(n["inner"][0], env)
         if k != "CallExpr" and "type" in n and self.rec_of_type(n["type"]["qualType"]):
@@ -326,7 +359,10 @@ class Fn:
             return self.lit_float(n["value"], n)
         if k in ("DeclRefExpr", "MemberExpr", "ArraySubscriptExpr"):
             if k == "DeclRefExpr" and n["referencedDecl"].get("kind") == "EnumConstantDecl":
-                raise Unsupported("enum constant at %s" % self.where(n))
+                nm_ = n["referencedDecl"]["name"]
+                if nm_ in self.tu.enums:
+                    return IntConst(self.tu.enums[nm_])
+                raise Unsupported("enum constant %s of unknown value at %s" % (nm_, self.where(n)))
             return self.read_loc(self.lvalue(n, env), env, n)
         if k == "UnaryOperator":
             op = n["opcode"]
@@ -508,6 +544,38 @@ class Fn:
             return self.block(rest, env, k)
         if kind == "LabelStmt":
             return self.block(s.get("inner", []) + rest, env, k)
+        if kind == "SwitchStmt":
+            # only on a value known at translation time (a specialised integer parameter): select the arm, run to the
+            # first top-level break (fall-through included)
+            parts = [c for c in s["inner"] if c.get("kind") != "DeclStmt"]
+            v = self.expr(parts[0], env)
+            if not isinstance(v, IntConst):
+                raise Unsupported("switch on a value that is not a translation-time constant at %s" % self.where(s))
+            body = parts[1].get("inner", []) if parts[1]["kind"] == "CompoundStmt" else [parts[1]]
+            flat = []               # (set of case values / "default", statement)
+            for st in body:
+                labels = set()
+                while st.get("kind") in ("CaseStmt", "DefaultStmt"):
+                    if st["kind"] == "DefaultStmt":
+                        labels.add("default")
+                        st = st["inner"][0]
+                    else:
+                        cv = self.expr(st["inner"][0], env)
+                        if not isinstance(cv, IntConst):
+                            raise Unsupported("case label is not a constant at %s" % self.where(st))
+                        labels.add(cv.v)
+                        st = st["inner"][-1]
+                flat.append((labels, st))
+            start = next((i for i, (l, _) in enumerate(flat) if v.v in l), None)
+            if start is None:
+                start = next((i for i, (l, _) in enumerate(flat) if "default" in l), None)
+            sel = []
+            if start is not None:
+                for _, st in flat[start:]:
+                    if st.get("kind") == "BreakStmt":
+                        break
+                    sel.append(st)
+            return self.block(sel + rest, env, k)
         if kind == "GotoStmt":
             # forward jump to a label among the top-level statements of the function body (the `exit:` / `fail:` idiom):
             # the continuation is everything from the label to the end of the function
@@ -629,6 +697,9 @@ class Fn:
                 binders.append(v)
                 env[("var", name)] = v
                 self.param_kinds.append(("real", name))
+            elif is_int_type(q) and name in self.spec:
+                env[("var", name)] = IntConst(self.spec[name])          # specialised: `f@name=value`
+                self.param_kinds.append(("int", name))
             elif is_int_type(q):
                 raise Unsupported("integer parameter %s of %s" % (name, self.name))
             else:
@@ -681,34 +752,45 @@ def translate_file(path, include, cfg, names, extra=(), sigs=None, externs=None)
     busy = set()
 
     def ensure(nm):
-        """translate nm (and, first, the functions with a body in this file that it calls)"""
+        """translate nm (and, first, the functions with a body in this file that it calls); `f@p=3` translates f with its
+        integer parameter p fixed to 3 as gen_f_p3"""
         if nm in sigs or nm in errs:
             return
+        spec = {}
+        full = nm
+        if "@" in nm:
+            nm, sp = nm.split("@", 1)
+            for kv in sp.split(","):
+                kk, vv = kv.split("=")
+                spec[kk] = int(vv)
         node = tu.funcs.get(nm)
         if node is None:
             errs[nm] = "function %s not found with a body in %s" % (nm, path)
             return
-        if nm in busy:
-            errs[nm] = "recursive call cycle through %s" % nm
+        if full in busy:
+            errs[full] = "recursive call cycle through %s" % nm
             return
-        busy.add(nm)
+        busy.add(full)
         try:
             for callee in sorted(called_functions(node)):
                 if callee in tu.funcs and callee not in sigs and callee != nm:
                     ensure(callee)
             fn = Fn(tu, node, sigs)
             fn.extern_ok = dict(externs or {})
+            fn.spec = spec
+            if spec:
+                fn.name = nm + "".join("_%s%d" % kv for kv in sorted(spec.items()))
             text, sig = fn.translate()
-            sigs[nm] = sig
+            sigs[full] = sig
             out.append("(* %s : inputs %s%s ; outputs: %s%s%s *)\n%s\n" % (
-                nm, " ".join(sig["binders"]) or "-",
+                full, " ".join(sig["binders"]) or "-",
                 (" ; externs " + " ".join(sig["externs"])) if sig["externs"] else "",
                 "; ".join("%s{%s}" % (n, ",".join(f)) for n, r, f in sig["structs"]) or "",
                 (" cells " + ",".join("%s[%d]" % c for c in sig["arrays_written"])) if sig["arrays_written"] else "",
                 " return" if sig["returns_value"] else "", text))
         except Unsupported as e:
-            errs[nm] = str(e)
-        busy.discard(nm)
+            errs[full] = str(e)
+        busy.discard(full)
 
     for nm in names:
         ensure(nm)
